@@ -877,7 +877,8 @@ class ModelMixin:
         for i, f in enumerate(c.requires(ctx)):
             nm = f[0] if isinstance(f, tuple) else str(i)
             fm = f[1] if isinstance(f, tuple) else f
-            self.oblige(st, f'pre.{finfo.qualname.split(":")[1]}.{nm}@{line}', fm, kind='pre', line=line)
+            pp = f[2] if isinstance(f, tuple) and len(f) > 2 else None
+            self.oblige(st, f'pre.{finfo.qualname.split(":")[1]}.{nm}@{line}', fm, kind='pre', line=line, props=pp)
         out = []
         mark = len(st.trace)
         # exceptional exits
@@ -912,7 +913,10 @@ class ModelMixin:
         ctxn.result = result
         if c.events:
             ev.result = result
-        for nm, f in c.ensures(ctxn).items():
-            st.assume(f)
+        if c.old_at != 'acquire':
+            # (postconditions of monitor methods speak about the state at lock acquisition, which a
+            # caller cannot know: nothing is assumed from them at call sites)
+            for nm, f in c.ensures(ctxn).items():
+                st.assume(f[0] if isinstance(f, tuple) else f)
         out.append(ok(result, st))
         return out
